@@ -229,27 +229,44 @@ Fixpoint desc_sortedb (l : list event) : bool :=
 
 Definition dedup_events (l : list event) : list event := dedup ev_eqb l [].
 
-(** [out] is a merge of one top-[lim] choice per candidate set.
-    [cands]: per filter the duplicate-free candidate set and its limit.
-    Exact when the outer limit cannot bite (the number of admissible
-    candidates does not exceed it); otherwise only necessary conditions are
-    tested (duplicate-free, sorted, admissible, not longer than the limit). *)
+(** the merge of one top-[lim] choice per candidate set, cut to the [outer]
+    newest: the statement of [query_spec] over explicit candidate lists *)
+Definition sel_spec (cl : list event * option Z) (res : list event) : Prop :=
+  top_sel (fun x => In x (fst cl)) (snd cl) res.
+
+Definition union_spec (cands : list (list event * option Z)) (outer : option Z) (out : list event) : Prop :=
+  exists ress,
+    Forall2 sel_spec cands ress /\
+    top_sel (fun x => exists res, In res ress /\ In x res) outer out /\
+    desc_sorted out.
+
+(** [out] is a merge of one top-[lim] choice per candidate set, cut to the
+    [outer] newest.  [cands]: per filter the duplicate-free candidate set and
+    its limit.  Exact in every case ([union_topn_ok_spec], SqlMerge.v).
+
+    A member of the merge MUST appear in [out] when the outer limit is not
+    exhausted, or when it is newer than some member of [out].  Every sure
+    candidate that must appear does; a filter whose cut level must appear has
+    as many members of that level in [out] as its limit leaves room for; and
+    every member of [out] that is not a sure candidate of some filter can be
+    charged to a filter on whose cut level it lies, no filter being charged
+    more than its room. *)
 Definition union_topn_ok (cands : list (list event * option Z)) (outer : option Z) (out : list event) : bool :=
-  let admissible := dedup_events (flat_map (fun cl => sure_of cl ++ ties_of cl) cands) in
   let sures := flat_map sure_of cands in
+  let full := match outer with Some m => zlen out <? m | None => true end in
+  let must := fun y => full ||| existsb (fun x => ev_ts x <? ev_ts y) out in
   nodupb out &&& desc_sortedb out &&&
-  forallb (fun x => mem_event x admissible) out &&&
   match outer with
   | Some m => zlen out <=? m
   | None => true
   end &&&
-  if match outer with Some m => zlen admissible <=? m | None => true end
-  then
-    forallb (fun x => mem_event x out) sures &&&
-    forallb (fun cl => tie_room cl <=? count_b (fun x => mem_event x out) (ties_of cl)) cands &&&
-    assign (filter (fun x => negb (mem_event x sures)) out)
-           (List.map (fun cl => (ties_of cl, tie_room cl)) cands)
-  else true.
+  forallb (fun x => negb (must x) ||| mem_event x out) sures &&&
+  forallb (fun cl => match ties_of cl with
+                     | [] => true
+                     | y :: _ => negb (must y) ||| (tie_room cl <=? count_b (fun x => mem_event x out) (ties_of cl))
+                     end) cands &&&
+  assign (filter (fun x => negb (mem_event x sures)) out)
+         (List.map (fun cl => (ties_of cl, tie_room cl)) cands).
 
 Definition live_list (es : list event) : list event := dedup_events (filter (liveb es) es).
 
